@@ -45,13 +45,16 @@ def run_unit(res, unit, findings, tier, seed, tmp):
         if key in seen:
             continue
         seen.add(key)
-        confirm_py(res, findings, key, path, msg)
+        confirm_py(res, findings, key, path, msg, unit.get("confirm_runs", 2))
 
 
-def confirm_py(res, findings, key, path, msg):
-    r = runner.replay_file(path, 2, prop=res.prop)
+def confirm_py(res, findings, key, path, msg, runs=2):
+    # subjects with real threads (applications) are replayed more often: a race that shows in 2 of 12
+    # replays is a violation, one that never shows again is recorded as flaky and not reported
+    r = runner.replay_file(path, runs, prop=res.prop)
     if r["fails"] < 2:
-        res.notes.append("FLAKY: %s failed in search but reproduced %d/2 (%s)" % (key, r["fails"], path))
+        res.notes.append("FLAKY: %s failed in search but reproduced %d/%d (%s)" % (key, r["fails"], runs, path))
+        print("[check] flaky, not reported: %s reproduced %d/%d" % (key, r["fails"], runs), flush=True)
         return
     for f in findings:
         if f.status == "known" and f.key == key:
